@@ -158,6 +158,8 @@ class Fn:
         self.prelude = ''
         self.malias = {}          # matrix window local -> (root struct parameter, Lean var of row offset, Lean var of word offset)
         self.malias_pre = {}      # pre-pass: matrix window local -> root struct parameter
+        self.retlocal = None      # the function returns NULL or this freshly created local matrix
+        self.retlocal_outs = []
         self.sbuild = None        # struct-builder mode: the local struct (from mzd_t_malloc) whose fields are the result
         self.sfields = []
         self.salias_len = {}
@@ -1032,6 +1034,18 @@ class Fn:
         if k == 'ReturnStmt' and self.sbuild and s.get('inner') and strip(s['inner'][0]).get('kind') == 'DeclRefExpr' and \
            strip(s['inner'][0])['referencedDecl']['name'] == self.sbuild:
             return pad + '(' + ', '.join(V('fld_' + f) for f in self.sfields) + ')'
+        if k == 'ReturnStmt' and self.retlocal and s.get('inner') and not self.loops:
+            r_ = strip(s['inner'][0])
+            while r_.get('kind') in ('CStyleCastExpr', 'ImplicitCastExpr', 'ParenExpr'):
+                r_ = strip(r_['inner'][0])
+            outs_ = ', '.join(V(m_) for m_ in self.retlocal_outs)
+            outs_ = (outs_ + ', ') if outs_ else ''
+            if r_.get('kind') == 'IntegerLiteral' and r_.get('value') == '0':
+                return pad + '((1 : Int), %s(fun _ _ => (0#64)), (0 : Int), (0 : Int))' % outs_
+            if r_.get('kind') == 'DeclRefExpr' and r_['referencedDecl']['name'] == self.retlocal:
+                nm_ = self.retlocal
+                return pad + '((0 : Int), %s%s, %s, %s)' % (outs_, V('mem_' + nm_), V(nm_ + '_nrows'), V(nm_ + '_ncols'))
+            raise CTransError('%s: unsupported return of a pointer' % self.name)
         if k == 'ReturnStmt' and self.void_outs is not None and s.get('inner') and not self.loops and \
            (kind_of(qt(strip(s['inner'][0]))) or '') == 'p:?':
             return pad + self.tup(self.void_outs)        # `return C;` of a function that returns its destination parameter
@@ -1707,7 +1721,7 @@ class Translator:
            not re.search(r'static\s+uint8_t\s+const\s+mzd_flag_windowed\s*=\s*0x4\s*;', mzdh):
             raise CTransError('mzd.h: the flag constants are no longer 0x2 / 0x4')
 
-    def function(self, cfile, cname, lname, fuels=(), slice_=None, doc='', nosse=False, outparams=None, mem1=None, builder=False, externs=None, retparam=None):
+    def function(self, cfile, cname, lname, fuels=(), slice_=None, doc='', nosse=False, outparams=None, mem1=None, builder=False, externs=None, retparam=None, retlocal=None):
         for i, f in enumerate(fuels):
             self.fuels[(cname if not slice_ else lname, i + 1)] = f
         ast = clang_ast(self.tu_dir if not nosse else self.tu_dir_nosse, cfile, cname, sse=not nosse)
@@ -1757,6 +1771,15 @@ class Translator:
                     fn.free(V(m_), 'm2', ('mem', m_[4:]))
                 term = fn.prelude + fn.seq(stmts, lambda: fn.tup(outs), 1)
                 rty = fn.tup_type(outs)
+            elif retlocal:
+                fn.retlocal = retlocal
+                fn.retlocal_outs = [x for x in fn.assigned(stmts) if (x.startswith('mem_') or x.startswith('mem1_')) and
+                                    not any(x == 'mem_' + l_ or x == 'mem1_%s_values' % l_ for l_ in fn.local_mats(body))]
+                for m_ in fn.retlocal_outs:
+                    fn.locals[m_] = 'm2'
+                    fn.free(V(m_), 'm2', ('mem', m_[4:]))
+                term = fn.seq(stmts, lambda: (_ for _ in ()).throw(CTransError('%s: control reaches the end without return' % cname)), 1)
+                rty = ' × '.join(['Int'] + ['(%s)' % fn.ltype(m_) for m_ in fn.retlocal_outs] + ['(%s)' % LTYPE['m2'], 'Int', 'Int'])
             elif builder:
                 fn.ret_kind = None
                 term = fn.seq(stmts, lambda: (_ for _ in ()).throw(CTransError('%s: control reaches the end without return' % cname)), 1)
@@ -1991,6 +2014,15 @@ def catalogue(t):
     F('m4ri/solve.c', '_mzd_pluq_solve_left', 'pluqSolveLeft', fuels=['(v_B_nrows).toNat', '(v_B_ncols).toNat'],
       externs={'mzd_trsm_lower_left': TRSM, 'mzd_trsm_upper_left': TRSM, 'mzd_addmul': dict(mats=(0, 1, 2), writes=(0,))},
       doc='solving with a given PLUQ factorisation; the triangular solves and the product are function parameters')
+    F('m4ri/brilliantrussian.c', 'mzd_inv_m4ri', 'invM4ri', retparam='B',
+      externs={'mzd_echelonize_m4ri': dict(mats=(0,), ret='i', writes=(0,))},
+      fuels=['(v_A_nrows).toNat + (v_A_width).toNat'] * 8,
+      doc='for a supplied destination B: work matrix [A | pad | I], M4RI elimination (function parameter; note the constant 0 '
+          'passed as k), copy of the right block')
+    F('m4ri/solve.c', 'mzd_kernel_left_pluq', 'kernelLeftPluq', retlocal='R',
+      fuels=['(v_A_ncols).toNat', '(v_A_ncols).toNat + 1', '(v_A_ncols).toNat'],
+      externs={'mzd_pluq': PLUQ, 'mzd_trsm_upper_left': dict(mats=(0, 1), writes=(1,))},
+      doc='right kernel through PLUQ: returns (1, …) for NULL (full column rank), else (0, new A, memory of the fresh R, its shape)')
     F('m4ri/solve.c', '_mzd_solve_left', 'solveLeftTop', externs={'_mzd_pluq': PLUQ, 'mzd_pluq_solve_left': dict(mats=(0, 4), perms=(2, 3), ret='i', writes=(4,))},
       doc='mzd_solve_left: padding-row test, then PLUQ and the solve with the factorisation (function parameters)')
     F('m4ri/echelonform.c', 'mzd_echelonize_pluq', 'echelonizePluq', fuels=['(v_A_nrows).toNat', '(v_A_ncols).toNat + 1'],
